@@ -467,6 +467,19 @@ def c11(run):
         pr = g.project()
         scs.append(F.determinism_scenario(pr["files"], "rnd-project", run.rng,
                                           layout="oneline" if k % 2 else "default", procs=2 if k % 3 == 0 else 1))
+    # many hash-ordered warnings (25-100 unresolved imports) together with pairs of diagnostics that share a start
+    # position: the order among equal starts must be the same in every call / instance / process too
+    for n_imp in ((30, 60) if q else (25, 30, 40, 60, 80, 100)):
+        for rep in range(2 if q else 4):
+            toks = [D.T("package"), D.T("p", "IDENT"), D.T(";")]
+            for k in range(n_imp):
+                toks += [D.T("import"), D.T("u%d" % (k % 7), "IDENT"), D.T("."), D.T("N%d" % k, "IDENT"), D.T(";")]
+            toks += [D.T("oneway"), D.T("interface"), D.T("I", "IDENT"), D.T("{")]
+            for k in range(6):
+                toks += [D.T("void"), D.T("m%d" % k, "IDENT"), D.T("("), D.T("out"), D.T("int"), D.T("a", "IDENT"), D.T(","),
+                         D.T("List"), D.T("b", "IDENT"), D.T(")"), D.T(";")]
+            toks.append(D.T("}"))
+            scs.append(F.determinism_scenario([{"id": "a", "toks": toks}], "many-imports-ties", run.rng, procs=2))
     run.add(scs)
     # files that keep their tree after a recovered syntax error AND get validation diagnostics: the two kinds of
     # diagnostics must come out merged in ascending order
